@@ -2,6 +2,9 @@ package props
 
 import (
 	"fmt"
+	"go/constant"
+	"go/types"
+	"os"
 	"sort"
 	"strings"
 	"sync"
@@ -11,6 +14,7 @@ import (
 	"rtcpverif/core"
 	"rtcpverif/effects"
 	"rtcpverif/num"
+	"rtcpverif/sum"
 )
 
 func init() { register("C09", "other", checkC09) }
@@ -20,9 +24,6 @@ func init() { register("C09", "other", checkC09) }
 // that function share the reason); an entry that matches no undecided obligation fails the check.
 var c09Triaged = map[string]string{
 	"(ApplicationDefined).Marshal|B-IDX":                  "padding loop rawPacket[12+dataLength+i] with i < paddingSize: rawPacket has MarshalSize() = 12 + dataLength + paddingSize' octets where paddingSize' is the same expression (4 - dataLength%4, or 0 when that is 4) evaluated in MarshalSize; the engine keeps both as convex relations and loses the disjunction (remainder 0 / remainder non-zero) that makes them equal",
-	"(CCFeedbackReport).Marshal|B-SLC":                    "prefix sums: buf has MarshalSize() = 8 + sum(block.len()) + 4 octets and offset = 8 + the sum of block.len() over the blocks already written (block.len() is effect-free and block.marshal() returns exactly block.len() octets), so offset <= len(buf)-4 at every slice",
-	"(CCFeedbackReport).Marshal|B-BIN":                    "after the loop offset = len(buf)-4 (see B-SLC), PutUint32 has its 4 octets",
-	"(SourceDescription).Marshal|B-SLC":                   "prefix sums: rawPacket has 4 + sum(chunk.len()) octets and chunkOffset advances by len(chunk.Marshal()) = chunk.len() (4 + items + 1 + padding, the same computation in both)",
 	"(TransportLayerCC).Marshal|B-SLC":                    "prefix sums: payload has pad4(16 + 2*len(PacketChunks) + sum(size(d))) octets with size(d) = 1 for small deltas and 2 otherwise (packetLen); the write cursor advances by 1, plus 1 only for large deltas, i.e. by at most size(d), and a delta of any other type makes delta.Marshal fail before the copy",
 	"(ReceiverEstimatedMaximumBitrate).MarshalTo|T-LOOP":  "floating-point loop `for bitrate >= 1<<18 { bitrate /= 2; exp++ }`: bitrate is clamped to the finite constant 0x3FFFFp+63 before the loop and a NaN fails the loop condition, so the loop runs at most 64 times (the integer engine does not model floats)",
 }
@@ -32,7 +33,7 @@ func checkC09(c *Ctx) {
 	p := c.Prog
 	r.Explain = "One clause of the property is decided: 'marshalling the returned packets never panics'. The numeric abstract interpreter evaluates every packet type's Marshal (and rtcp.Marshal / CompoundPacket.Marshal with the member encoders opaque) on an UNCONSTRAINED receiver — every field value and list length, list elements non-nil — which includes every packet a decoder can return (decoders append only fresh, non-nil elements: C01's B-NIL facts). Every index, slice bound (against the length), binary.BigEndian access, nil dereference, division, type assertion, negative make and loop in the reachable universe is an obligation that must be entailed at the instruction; six obligation groups that need prefix-sum, disjunctive or floating-point reasoning are discharged by a frozen table of reasons confirmed by reading (c09Triaged). The other clauses of the property — the re-encoded bytes are accepted again and decode to an equal packet list — relate run-time values of two executions and are NOT decided (the structural part of them is C02-LAY/C05/C16)."
 	r.RuleText = "C09-NOPANIC: B-IDX, B-SLC, B-BIN, B-NIL, B-DIV, B-TAS, B-MAKE, B-CALL, B-PANIC, T-LOOP over the universe of the 15 packet encoders, rtcp.Marshal and CompoundPacket.Marshal. Undecided = failure unless the (function, rule) pair is in c09Triaged."
-	r.Trusted = []string{"go/ssa, VTA call graph", "numeric engine checker/num", "effects analysis (purity of the opaque member encoders in the two datagram-level roots; determinism of the size functions)", "Go's panic conditions", "frozen table c09Triaged (6 entries with reasons)"}
+	r.Trusted = []string{"go/ssa, VTA call graph", "numeric engine checker/num", "effects analysis (purity of the opaque member encoders in the two datagram-level roots; determinism of the size functions)", "Go's panic conditions", "frozen table c09Triaged (3 entries with reasons)"}
 	r.Assume = []string{
 		fmt.Sprintf("size domain: the re-encoded packet is at most %d octets (a decoded datagram is at most 65535 octets; above that CCFeedbackReport.Marshal does panic: its buffer length is computed in uint16)", c05MaxBytes),
 		"receivers and list elements are non-nil (what decoders produce)",
@@ -124,13 +125,29 @@ func checkC09(c *Ctx) {
 	r.Floor("C09-ROOT", 17)
 	sort.Strings(order)
 	used := map[string]bool{}
+	sm := &c09Sum{c: c, an: an, ts: ts}
+	nSum := 0
 	for _, k := range order {
 		o := obls[k]
+		sumWhy := ""
 		key := o.Key
 		pos := p.Pos(o.Pos)
 		if o.Failed == 0 {
 			r.Ok("C09-NOPANIC", key, pos, fmt.Sprintf("%s (entailed in %d context(s))", o.Detail, o.Seen))
 			continue
+		}
+		if o.Rule == "B-SLC" || o.Rule == "B-BIN" {
+			ok, det := sm.prove(o.In)
+			if os.Getenv("C09_DEBUG") != "" {
+				fmt.Fprintf(os.Stderr, "E3 %s: %v %s\n", key, ok, det)
+			}
+			if ok {
+				r.Ok("C09-NOPANIC", key, pos, "not entailed by the numeric engine; "+det)
+				nSum++
+				continue
+			} else if det != "" {
+				sumWhy = "; symbolic sums: " + det
+			}
 		}
 		tk := o.Fn + "|" + o.Rule
 		if why, ok := c09Triaged[tk]; ok {
@@ -138,8 +155,9 @@ func checkC09(c *Ctx) {
 			r.Ok("C09-NOPANIC", key, pos, "not decided by the engine; confirmed by reading (frozen table): "+why)
 			continue
 		}
-		r.Unk("C09-NOPANIC", key, pos, fmt.Sprintf("not entailed in %d of %d context(s): %s", o.Failed, o.Seen, o.FailCtx))
+		r.Unk("C09-NOPANIC", key, pos, fmt.Sprintf("not entailed in %d of %d context(s): %s%s", o.Failed, o.Seen, o.FailCtx, sumWhy))
 	}
+	c09Sizes(c, sm)
 	var stale []string
 	for k := range c09Triaged {
 		if !used[k] {
@@ -150,8 +168,276 @@ func checkC09(c *Ctx) {
 	for _, k := range stale {
 		r.Fatalf("triage table entry %q matches no undecided obligation (stale table)", k)
 	}
+	r.Infof("%d obligation(s) discharged by the symbolic-sum engine", nSum)
 	if len(order) < 600 {
 		r.Fatalf("only %d run-time-check obligations generated for the encoders (expected about 900)", len(order))
 	}
 	_ = core.Discharged
+}
+
+// ---------------------------------------------------------------- symbolic sums (engine E3)
+
+func pureFn(an *effects.Analysis) func(*ssa.Function) bool {
+	return func(fn *ssa.Function) bool {
+		s := an.Sum[fn]
+		if s == nil || len(s.Undecided) > 0 || len(s.Forbidden) > 0 {
+			return false
+		}
+		for k := 0; k < s.NRoots; k++ {
+			if s.WritesThrough(k) {
+				return false
+			}
+		}
+		return true
+	}
+}
+
+// numNonNeg: the numeric engine bounds result 0 of fn below by 0 at every return, for every receiver.
+func numNonNeg(c *Ctx, fn *ssa.Function, intArgsNonNeg bool) bool {
+	e := newNumEngine(c, nil)
+	e.AssumeNoWrap = c05SizeFns
+	if intArgsNonNeg {
+		e.RootInit = func(st *num.State) {
+			for _, p := range fn.Params {
+				if b, ok := p.Type().Underlying().(*types.Basic); ok && b.Info()&types.IsInteger != 0 {
+					st.Assume(e.ExprOf(st, p))
+				}
+			}
+		}
+	}
+	var rets []num.RootReturn
+	if msg := guarded(func() { rets = e.AnalyzeRoot(fn, num.RootOptions{ElemsNonNil: true}) }); msg != "" || e.Exceeded || len(rets) == 0 {
+		return false
+	}
+	for _, rr := range rets {
+		if len(rr.Ret.Results) == 0 {
+			return false
+		}
+		b := rr.St.Bounds(rr.St.Subst(e.ExprOf(rr.St, rr.Ret.Results[0])))
+		if !b.HasLo || b.Lo < 0 {
+			return false
+		}
+	}
+	return true
+}
+
+func newSumEngine(c *Ctx, an *effects.Analysis) *sum.Engine {
+	se := sum.New(c.Prog.SPkg)
+	se.Pure = pureFn(an)
+	se.AddrWritten = func(a *ssa.Alloc, init *ssa.Store) string { return addrWritten(an, a, init, 0) }
+	se.NonNegOracle = func(fn *ssa.Function, nn bool) bool { return numNonNeg(c, fn, nn) }
+	return se
+}
+
+// c09Sum discharges slice-bound and binary-access obligations of encoders with the symbolic-sum engine:
+// the cursor of a `for range list` loop is a prefix sum of the per-element size, the buffer length is
+// the full sum (plus non-negative terms), both evaluated from the code of the encoder and of the size
+// function it calls. For a packet encoder whose buffer length is not itself a symbolic sum (computed
+// from the 16-bit header length), the identity len(buffer) = MarshalSize() is taken from C05's rules
+// (re-established here by the numeric engine) when the buffer is the slice returned at every nil-error
+// return.
+type c09Sum struct {
+	c       *Ctx
+	an      *effects.Analysis
+	ts      []c05Type
+	plain   *sum.Engine
+	withLen map[*ssa.Function]*sum.Engine // engines with the C05-LEN identity installed
+	lenWhy  map[*ssa.Function]string
+}
+
+func (s *c09Sum) try(se *sum.Engine, in ssa.Instruction) (bool, string) {
+	fn := in.Parent()
+	res := se.EvalRoot(fn)
+	if res.Frame == nil {
+		return false, "not evaluated"
+	}
+	if res.Mutates != "" {
+		return false, "the encoder writes its receiver: " + res.Mutates
+	}
+	switch x := in.(type) {
+	case *ssa.Slice:
+		return res.Frame.ProveSlice(x)
+	case *ssa.Call:
+		f := x.Common().StaticCallee()
+		if f == nil {
+			return false, "dynamic call"
+		}
+		n := int64(0)
+		switch f.String() {
+		case "(encoding/binary.bigEndian).Uint16", "(encoding/binary.bigEndian).PutUint16":
+			n = 2
+		case "(encoding/binary.bigEndian).Uint32", "(encoding/binary.bigEndian).PutUint32":
+			n = 4
+		case "(encoding/binary.bigEndian).Uint64", "(encoding/binary.bigEndian).PutUint64":
+			n = 8
+		default:
+			return false, "not a binary.BigEndian access"
+		}
+		if len(x.Common().Args) < 2 {
+			return false, "unexpected argument list"
+		}
+		return res.Frame.ProveMinLen(x.Common().Args[1], x, n)
+	}
+	return false, "not a slice expression or binary access"
+}
+
+func (s *c09Sum) prove(in ssa.Instruction) (bool, string) {
+	if in == nil || in.Parent() == nil {
+		return false, ""
+	}
+	if s.plain == nil {
+		s.plain = newSumEngine(s.c, s.an)
+		s.withLen = map[*ssa.Function]*sum.Engine{}
+		s.lenWhy = map[*ssa.Function]string{}
+	}
+	ok, why := s.try(s.plain, in)
+	if ok {
+		return true, "symbolic sums (E3): " + why
+	}
+	fn := in.Parent()
+	se, done := s.withLen[fn]
+	if !done {
+		s.withLen[fn] = nil
+		for i := range s.ts {
+			t := s.ts[i]
+			if t.marshal != fn || t.marshalSize == nil {
+				continue
+			}
+			mk := returnedMake(fn)
+			if mk == nil {
+				s.lenWhy[fn] = "the encoder does not return one made buffer at all its nil-error returns"
+				break
+			}
+			holds, det := c05LenHolds(s.c, s.an, t)
+			if !holds {
+				s.lenWhy[fn] = "len(result) = MarshalSize() not established: " + det
+				break
+			}
+			ms, good := s.plain.EvalRoot(t.marshalSize).ResultLin(0)
+			if !good {
+				s.lenWhy[fn] = "MarshalSize() is not a symbolic sum"
+				break
+			}
+			se = newSumEngine(s.c, s.an)
+			se.LenOverride[mk] = ms
+			s.withLen[fn] = se
+			s.lenWhy[fn] = "len(buffer) = MarshalSize() = " + ms.Key() + " (" + det + ")"
+		}
+	}
+	if se == nil {
+		if w := s.lenWhy[fn]; w != "" {
+			why += "; " + w
+		}
+		return false, why
+	}
+	ok, why2 := s.try(se, in)
+	if ok {
+		return true, "symbolic sums (E3) with " + s.lenWhy[fn] + ": " + why2
+	}
+	return false, why + "; with the C05-LEN identity: " + why2
+}
+
+// returnedMake: the MakeSlice whose value is result 0 of every return of fn that does not return a
+// nil slice constant; nil if there is none or more than one.
+func returnedMake(fn *ssa.Function) *ssa.MakeSlice {
+	var mk *ssa.MakeSlice
+	for _, b := range fn.Blocks {
+		if len(b.Instrs) == 0 {
+			continue
+		}
+		ret, ok := b.Instrs[len(b.Instrs)-1].(*ssa.Return)
+		if !ok || len(ret.Results) == 0 {
+			continue
+		}
+		if cst, ok := ret.Results[0].(*ssa.Const); ok && cst.Value == nil {
+			continue
+		}
+		m, ok := ret.Results[0].(*ssa.MakeSlice)
+		if !ok || (mk != nil && mk != m) {
+			return nil
+		}
+		mk = m
+	}
+	return mk
+}
+
+// c09SizePairs: element encoders and the size their container reserves for them (a size function of the
+// same receiver, or a package constant). Confirmed by reading the container encoders: the cursor of the
+// container advances by this size, or the container's MarshalSize adds it up.
+var c09SizePairs = []struct{ enc, size, why string }{
+	{"SourceDescriptionChunk.Marshal", "SourceDescriptionChunk.len", "SourceDescription.MarshalSize sums chunk.len(); Marshal advances by len(chunk bytes)"},
+	{"SourceDescriptionItem.Marshal", "SourceDescriptionItem.Len", "SourceDescriptionChunk.len sums item.Len(); the chunk decoder advances by item.Len()"},
+	{"CCFeedbackReportBlock.marshal", "*CCFeedbackReportBlock.len", "CCFeedbackReport.MarshalSize sums block.len(); Marshal advances by block.len()"},
+	{"CCFeedbackMetricBlock.marshal", "const:2", "CCFeedbackReportBlock.marshal places metric block i at reportsOffset+2i"},
+	{"ReceptionReport.Marshal", "const:receptionReportLength", "SenderReport/ReceiverReport place report i at a multiple of receptionReportLength"},
+	{"Header.Marshal", "const:headerLength", "every packet encoder copies the header into the first headerLength octets"},
+	{"RunLengthChunk.Marshal", "const:2", "TransportLayerCC.Marshal places chunk i at packetStatusChunkOffset+2i"},
+	{"StatusVectorChunk.Marshal", "const:2", "TransportLayerCC.Marshal places chunk i at packetStatusChunkOffset+2i"},
+}
+
+// c09Sizes (rule C09-SIZE): at its nil-error returns an element encoder returns exactly as many octets
+// as its container reserves for it — the symbolic length of the result (engine E3) equals the symbolic
+// value of the size function on the same receiver, or the constant.
+func c09Sizes(c *Ctx, sm *c09Sum) {
+	r := c.Rep
+	p := c.Prog
+	if sm.plain == nil {
+		sm.plain = newSumEngine(sm.c, sm.an)
+		sm.withLen = map[*ssa.Function]*sum.Engine{}
+		sm.lenWhy = map[*ssa.Function]string{}
+	}
+	se := sm.plain
+	for _, pr := range c09SizePairs {
+		enc := p.Func(pr.enc)
+		if enc == nil {
+			r.Fatalf("unresolved anchor: %s", pr.enc)
+			continue
+		}
+		r.Anchor("C09-SIZE", pr.enc)
+		key := pr.enc + "/returns-its-reserved-size"
+		pos := p.Pos(enc.Pos())
+		res := se.EvalRoot(enc)
+		got, ok := res.ResultLin(0)
+		if !ok || res.Mutates != "" || res.NRetNil == 0 {
+			r.Unk("C09-SIZE", key, pos, "the length of the encoder's result at its nil-error returns is not a symbolic size"+noteTail(se))
+			continue
+		}
+		var want sum.Lin
+		if strings.HasPrefix(pr.size, "const:") {
+			n := strings.TrimPrefix(pr.size, "const:")
+			var v int64
+			if _, err := fmt.Sscanf(n, "%d", &v); err != nil {
+				cst, isC := p.Types.Scope().Lookup(n).(*types.Const)
+				if !isC {
+					r.Fatalf("unresolved anchor: constant %s", n)
+					continue
+				}
+				v, _ = constant.Int64Val(cst.Val())
+			}
+			want = sum.Const(v)
+		} else {
+			sf := p.Func(pr.size)
+			if sf == nil {
+				r.Fatalf("unresolved anchor: %s", pr.size)
+				continue
+			}
+			w, ok := se.SizeOf(sf)
+			if !ok {
+				r.Unk("C09-SIZE", key, pos, pr.size+" is not a symbolic size"+noteTail(se))
+				continue
+			}
+			want = w
+		}
+		r.Check(got.Equal(want), "C09-SIZE", key, pos,
+			fmt.Sprintf("len(result) = %s = %s (%s)", got.Key(), strings.TrimPrefix(pr.size, "const:"), pr.why),
+			fmt.Sprintf("len(result) = %s but %s = %s: the container reserves a different number of octets (%s)", got.Key(), strings.TrimPrefix(pr.size, "const:"), want.Key(), pr.why))
+	}
+	r.Floor("C09-SIZE", len(c09SizePairs))
+}
+
+func noteTail(se *sum.Engine) string {
+	if len(se.Notes) == 0 {
+		return ""
+	}
+	return " (" + se.Notes[len(se.Notes)-1] + ")"
 }
